@@ -274,6 +274,27 @@ PROPS = {
         "trusted_base": TB_COMMON + ["Utc::now() is read by the harness inside the same second as the mutator (the harness waits when the clock is within 150 ms of a second boundary)"],
         "assumptions": ["a deleted TaskData is dropped by the caller (documented)", "create_task twice for one new uuid without a commit in between records two Creates (the replica cannot know): not generated as a violation"],
     },
+    "C08": {
+        "module": "TcVerif.Props.C08",
+        "theorems": ["Tc.C08_chain_invariant", "Tc.C08_rejected_unchanged", "Tc.C08_accept_iff", "Tc.C08_child_bytes_exact",
+                     "Tc.C08_child_stable", "Tc.C08_unknown_parent_none", "Tc.C08_latest_has_no_child", "Tc.C08_snapshot_intact"],
+        "leanchecker_modules": [],
+        "runs": [
+            {"family": "backend", "flags": [], "quick": {"cases": 40, "max_len": 30}, "thorough": {"cases": 400, "max_len": 60}},
+        ],
+        "judge_preds": ["linear", "child", "snapshot", "noerr"],
+        "nontrivial": lambda imp, ops: sum(1 for l in imp if l.startswith("ok v")) >= 2 and any(l.startswith("exp ") for l in imp),
+        "rule": "cases rotate over the five backend configurations (local on-disk SQLite, git local-only, git with a shared bare remote and 1-3 clones, "
+                "object store (real CloudServer over the in-memory Service hook), HTTP client against an in-harness server written from docs/http.md); each case "
+                "is a random sequence of add_version (parent = latest, a stale version, nil, or a never-seen id; payload empty / 1 byte / non-UTF-8 / all 256 byte "
+                "values / up to 3000 bytes), get_child_version (nil, every known id, unknown ids), add_snapshot, get_snapshot and handle re-opening, from 1-3 "
+                "handles; every answer is compared with ChainSrv (the Lean spec the theorems are about) and judged by the chain rules recomputed from the "
+                "implementation's own answers; non-trivial = at least two accepted versions and one rejection; distinct by SHA-1",
+        "trusted_base": TB_COMMON + ["the in-harness HTTP server stands for 'a protocol-conformant sync server' (written from docs/http.md, not from taskchampion-sync-server)",
+                                     "the in-memory object store hook (MemService) stands for a real object store with compare-and-swap",
+                                     "git itself (commits, push rejection of non-fast-forward updates)"],
+        "assumptions": ["handles of one case are used one call at a time (concurrent use of the object store is C09); cleanup runs are excluded here (C10); crashes are C11"],
+    },
     "C13": {
         "module": "TcVerif.Props.C13",
         "theorems": ["Tc.Crypto.unseal_seal", "Tc.Crypto.seal_layout", "Tc.Crypto.aad_layout", "Tc.Crypto.unseal_rejects_short",
@@ -282,9 +303,11 @@ PROPS = {
         "leanchecker_modules": [],
         "runs": [
             {"family": "seal", "flags": [], "quick": {"cases": 3, "max_len": 6}, "thorough": {"cases": 12, "max_len": 20, }},
+            {"family": "backend", "flags": ["--sealed-check", "--kind=cloud", "--kind=http", "--kind=git-local"],
+             "quick": {"cases": 3, "max_len": 8}, "thorough": {"cases": 12, "max_len": 12}},
         ],
-        "judge_preds": ["tamper", "roundtrip", "layout", "leak", "nonce"],
-        "nontrivial": lambda imp, ops: sum(1 for l in ops if l.startswith("TAMPER")) >= 100,
+        "judge_preds": ["tamper", "roundtrip", "layout", "leak", "nonce", "sealed"],
+        "nontrivial": lambda imp, ops: sum(1 for l in ops if l.startswith("TAMPER")) >= 100 or any(l.startswith("OPEN") for l in ops),
         "rule": "per case one (secret, salt) pair (fixed 'secret', random bytes, empty secret; 16 random salt bytes or a client-id uuid) and several payloads (empty, 1 byte, "
                 "a history segment, all 256 byte values, non-UTF-8, 200 bytes) with random and nil version ids: the real Cryptor seals (hook) and Lean — deriving the key "
                 "itself with the extracted iteration count — opens; Lean seals with chosen nonces and the real Cryptor opens; every single-byte flip (bit 0; all 8 bits in "
@@ -292,6 +315,6 @@ PROPS = {
                 "of a payload occurs in its envelope; all nonces distinct; non-trivial = at least 100 tampered inputs in the case; distinct by SHA-1",
         "trusted_base": TB_COMMON + ["ChaCha20-Poly1305 is a secure AEAD and PBKDF2-HMAC-SHA256 a sound KDF (Lean proves format, round trip and accept-only-if-the-tag-matches, not unforgeability or secrecy)",
                                      "the OS random number generator yields fresh nonces (checked for distinctness only)"],
-        "assumptions": ["partial: cryptographic strength is not a theorem; that each remote backend stores only sealed bytes bound to the right version id is checked in the backend families (C08)"],
+        "assumptions": ["partial: cryptographic strength is not a theorem; that each remote backend (object store, git, HTTP) stores only sealed bytes bound to the right version id is checked on what they really stored (backend family, --sealed-check: Lean derives the key from secret and stored salt and opens the stored object / file / request body)"],
     },
 }
